@@ -130,6 +130,29 @@ def _hardlink_job(args):
     return other_fs, same_dev, structured, check, r.exit, r.panicked, changed, left
 
 
+def _cfglink_job(args):
+    """The configuration *file* is a symbolic link into another directory: relative paths are resolved against the directory of the file as
+    it was named (where the link lives), and the lock file appears next to it - whichever way the file is named on the command line."""
+    work, naming, check = args
+    root = os.path.join(work, "cl")
+    app, shared = os.path.join(root, "app"), os.path.join(root, "shared")
+    cli.write_tree(app, {"src/main.rs": STMT, "src/sub/x.rs": STMT})
+    cli.write_tree(shared, {"src/lib.rs": STMT, "Breadlog.yaml": cli.config_yaml("./src", macros=[("log", "info")])})
+    os.symlink("../shared/Breadlog.yaml", os.path.join(app, "Breadlog.yaml"))
+    cwd, cfg = {"bare": (app, "Breadlog.yaml"), "dot-slash": (app, "./Breadlog.yaml"), "relative": (root, "app/Breadlog.yaml"),
+                "absolute": (shared, os.path.join(app, "Breadlog.yaml"))}[naming]
+    before = cli.snapshot(root, with_meta=False)
+    tmp = os.path.join(work, "tmp")
+    os.makedirs(tmp)
+    r = cli.run_breadlog(cfg, check=check, cwd=cwd, tmpdir=tmp, timeout=30)
+    after = cli.snapshot(root, with_meta=False)
+    changed = sorted(k for k, a, b in cli.snapshot_diff(before, after) if not ((a or b)[0] == "d" and a is not None and b is not None))
+    rep = cli.Report(r.stdout)
+    reported = sorted({os.path.relpath(os.path.normpath(os.path.join(cwd, f)), root) for f, _, _ in rep.missing})
+    shutil.rmtree(work, ignore_errors=True)
+    return naming, check, r.exit, r.panicked, changed, reported
+
+
 def _symlink_job(args):
     """The configuration is reached through a symlinked directory and source_dir climbs out of it with `..`: resolution must follow
     the file system (the parent of the link's target), not fold `..` textually against the path the user typed."""
@@ -256,6 +279,30 @@ def run(tier, v):
                              "changed": changed, "left_in_tmpdir": left})
     v.subspace("in-scope files with a second (hard-linked) name outside the project / outside source_dir / with another extension x TMPDIR on {the same, "
                "another} file system x style x mode", len(hjobs))
+    # the configuration file itself is a symbolic link
+    cjobs = []
+    for naming, check in itertools.product(("bare", "dot-slash", "relative", "absolute"), (True, False)):
+        w = os.path.join(base, "c%d" % len(cjobs))
+        os.makedirs(w)
+        cjobs.append((w, naming, check))
+    with multiprocessing.Pool(NCPU) as pool:
+        for naming, check, ex_, pan_, changed, reported in pool.map(_cfglink_job, cjobs):
+            v.count()
+            v.distinct(("config-file-is-a-symlink", naming, check))
+            bad = []
+            if pan_:
+                bad.append("abnormal-termination")
+            if check:
+                if changed:
+                    bad.append("check-changed-something")
+                if reported != ["app/src/main.rs", "app/src/sub/x.rs"]:
+                    bad.append("check-reported-files-differ-from-scope")
+            elif changed != ["app/Breadlog.lock", "app/src/main.rs", "app/src/sub/x.rs"]:
+                bad.append("edited-files-differ-from-scope")
+            for b in bad:
+                v.violation("config-file-is-a-symlink:%s:%s" % (b, naming), {"config_named": naming, "mode": "check" if check else "edit", "exit": ex_, "changed": changed,
+                                                                            "reported": reported})
+    v.subspace("configuration file that is a symbolic link into another directory x how it is named {bare file name, ./name, relative, absolute} x mode", len(cjobs))
     # configuration reached through a symlinked directory
     sjobs = []
     for sd, cf, cw, check in itertools.product(["../src", "./../src", "../src/"], CFG_FORMS, ["ws", "root", "unrelated"], (True, False)):
